@@ -1,6 +1,6 @@
 //! C13 - lexing is lossless, positions are exact, nothing is skipped.
 //!
-//! Bounded-exhaustive: every string over a 41-symbol alphabet (one representative per character class of
+//! Bounded-exhaustive: every string over a 43-symbol alphabet (one representative per character class of
 //! the lexer) up to a fixed length, longer strings over two reduced alphabets, and every ordered pair of
 //! the 60 operator spellings in four layouts. Each string goes through the real `lex`; only an `Ok` result
 //! is judged (the statement is conditional on success):
@@ -28,9 +28,9 @@ pub struct C13;
 // alphabets
 
 /// one representative per character class of the lexer; the order is the "simpler than" order of the reducer
-pub const SIGMA: [char; 41] = [
+pub const SIGMA: [char; 43] = [
     '1', 'a', '_', ':', '.', ' ', '\t', '\n', '\r', '"', '\'', '\\', '@', '`', '$', '?', '!', '~', '<', '>', '=', '+', '-', '|', '&', '^', '#', '%',
-    '*', '/', '(', ')', '{', '}', '[', ']', ',', ';', 'é', '§', '😀',
+    '*', '/', '(', ')', '{', '}', '[', ']', ',', ';', 'é', '§', '😀', '\u{c}', '\0',
 ];
 
 /// 14-symbol core for the longer strings
@@ -166,7 +166,8 @@ pub enum Outcome {
 }
 
 fn is_ws(c: char) -> bool {
-    c == ' ' || c == '\t' || c == '\n' || c == '\r'
+    // form feed is layout too; like the carriage return, whether it counts as a line break is not settled
+    c == ' ' || c == '\t' || c == '\n' || c == '\r' || c == '\u{c}'
 }
 
 /// column unit of the lexer under test, calibrated on one input: Some(0) characters, Some(1) bytes, Some(2) UTF-16
@@ -243,7 +244,7 @@ fn shape_ok(t: TokenType, text: &str) -> bool {
         TokenType::ByteList => quoted_shape(text, '\''),
         TokenType::Whitespace => text.chars().all(is_ws),
         // a separator made of layout is a blank line: it holds at least two newlines
-        TokenType::Subexpression => text.chars().all(is_ws) && text.chars().filter(|c| *c == '\n' || *c == '\r').count() >= 2, // (how a carriage return counts is not settled)
+        TokenType::Subexpression => text.chars().all(is_ws) && text.chars().filter(|c| *c == '\n' || *c == '\r' || *c == '\u{c}').count() >= 2, // (how a carriage return or form feed counts is not settled)
         TokenType::Annotation => text.starts_with('@') && text[1..].chars().all(|c| c.is_alphanumeric() || c == '_'),
         TokenType::LineAnnotation => {
             let n = text.chars().count();
@@ -368,7 +369,7 @@ pub fn judge(input: &str, toks: &[LexerToken]) -> Vec<Fault> {
         }
         // a separator directly after a comment line: the comment's own line break is the first half of the blank line
         if tt == TokenType::Subexpression && ti > 0 && toks[ti - 1].get_token_type() == TokenType::LineAnnotation && toks[ti - 1].get_text().ends_with('\n') {
-            if tx.chars().all(is_ws) && tx.contains('\n') {
+            if tx.chars().all(is_ws) && tx.chars().any(|c| c == '\n' || c == '\r' || c == '\u{c}') {
                 continue;
             }
         }
@@ -449,7 +450,7 @@ pub fn judge(input: &str, toks: &[LexerToken]) -> Vec<Fault> {
     }
 
     // --- positions (only exact decompositions, only input without carriage returns)
-    if exact && !input.contains('\r') {
+    if exact && !input.contains('\r') && !input.contains('\u{c}') {
         let mut line = 0usize;
         let mut col_c = 0usize; // characters
         let mut col_b = 0usize; // bytes
@@ -951,7 +952,7 @@ impl Property for C13 {
         let layout_len = tier.pick(7, 8);
         Meta {
             rule: format!(
-                "every string of length <= {} over the 41-symbol alphabet (one representative per lexer character class: 1 a _ : . space tab LF CR \" ' \\ @ ` $ and the 23 operator constituents ? ! ~ < > = + - | & ^ # % * / ( ) {{ }} [ ] , ; plus the 2-byte letter e-acute, the 2-byte non-token character section-sign and a 4-byte emoji); every string of length {}..={} over the 14-symbol core (1 a . _ : space LF \" ' \\ @ + - section-sign); every string of length {}..={} over the 7-symbol layout alphabet (1 space tab LF CR \" @) not already in the core space; every ordered pair of the 60 operator spellings tight, separated by a space, separated by a newline, and between an identifier and a number; each spelling alone. Each string is lexed by the real `lex`; Ok results are judged (lossless, non-empty, positions, operator spelling and longest match, class shape, blank-line separator), Err results are only counted. A case is non-trivial when `lex` returned Ok with at least two tokens; the enumerated strings are pairwise distinct by construction (overlaps between the spaces are skipped), so the count is of distinct cases.",
+                "every string of length <= {} over the 43-symbol alphabet (one representative per lexer character class: 1 a _ : . space tab LF CR form-feed NUL \" ' \\ @ ` $ and the 23 operator constituents ? ! ~ < > = + - | & ^ # % * / ( ) {{ }} [ ] , ; plus the 2-byte letter e-acute, the 2-byte non-token character section-sign and a 4-byte emoji); every string of length {}..={} over the 14-symbol core (1 a . _ : space LF \" ' \\ @ + - section-sign); every string of length {}..={} over the 7-symbol layout alphabet (1 space tab LF CR \" @) not already in the core space; every ordered pair of the 60 operator spellings tight, separated by a space, separated by a newline, and between an identifier and a number; each spelling alone. Each string is lexed by the real `lex`; Ok results are judged (lossless, non-empty, positions, operator spelling and longest match, class shape, blank-line separator), Err results are only counted. A case is non-trivial when `lex` returned Ok with at least two tokens; the enumerated strings are pairwise distinct by construction (overlaps between the spaces are skipped), so the count is of distinct cases.",
                 full_len,
                 full_len + 1,
                 core_len,
@@ -961,7 +962,7 @@ impl Property for C13 {
             assumptions: vec![
                 "only Ok results are judged: the statement is conditional on `lex` succeeding; an Err is never a violation here, and a panic of `lex` is counted (lex_panic_not_judged) but left to the totality property".into(),
                 "'a character that cannot start or continue any token makes lex fail' is checked through its consequence for Ok results: the character must be inside some token (lossless) and no token class admits it (class shape)".into(),
-                "positions: line = number of LF before the token's first character, column = distance from the last LF counted in characters, bytes or UTF-16 units - whichever the lexer uses on the calibration input \"é😀\" 1, the same unit for every token of every input -, base 0 or base 1 accepted as long as one base is used for every token of the input; inputs containing CR are not judged for positions; inputs that are not lossless are not judged for positions".into(),
+                "positions: line = number of LF before the token's first character, column = distance from the last LF counted in characters, bytes or UTF-16 units - whichever the lexer uses on the calibration input \"é😀\" 1, the same unit for every token of every input -, base 0 or base 1 accepted as long as one base is used for every token of the input; inputs containing CR or form feed are not judged for positions; inputs that are not lossless are not judged for positions".into(),
                 "operator table = the 60 spellings handed to create_operator_tree in Lexer::new (transcribed); longest match for an operator token = no longer table spelling starts at the same character. A literal is only required not to be directly followed by a character of its own class (digit/letter/underscore after a number; identifier character after an identifier, symbol or suffix identifier); '.digits' after a value may be Period+Number or a float, both accepted (float/period rule)".into(),
                 "class shapes are the widest the code admits: numbers = letters, digits, underscores and at most one period, starting with a digit or period; identifiers/symbols = letters, digits, '_' and ':'; char/byte lists = N quotes ... N quotes with N = 1 or N >= 3, or exactly two quotes; whitespace and sub-expression tokens = space, tab, LF, CR only; annotations = '@' + letters/digits/underscore; line annotations = '@@' up to and including one LF".into(),
                 "blank line = a maximal run of space/tab/LF characters, outside char lists, byte lists and annotations, that contains at least two LF; it must contain the start of at least one Subexpression token. Runs broken by CR, or whose first LF ends a line annotation, are not judged. A Subexpression token where there is no blank line is not judged (statement silent)".into(),
